@@ -44,6 +44,7 @@ def strategy(tier):
         st.tuples(st.just('savepoint')), st.tuples(st.just('savepoint')),
         st.tuples(st.just('rollback'), st.integers(0, 3)),
         st.tuples(st.just('undo'), st.integers(0, 3)),
+        st.tuples(st.just('undo2')),
         st.tuples(st.just('pack'), st.integers(0, 8)),
         st.tuples(st.just('read'), i),
         st.tuples(st.just('observe'), st.booleans()),
@@ -61,7 +62,8 @@ def strategy(tier):
     phased2 = st.tuples(st.lists(op, max_size=2), i, d, st.booleans(), d, st.integers(0, 1), st.booleans(), st.integers(0, 8),
                         st.lists(op, max_size=4)).map(
         lambda t: t[0] + [['write', t[1], 'w', t[2]], ['commit']] + ([['write', t[1], 'a', t[4]], ['commit']] if t[3] else [])
-        + [['undo', t[5]]] + ([['undo', 0]] if t[6] else []) + [['pack', t[7]], ['observe', True], ['read', t[1]]] + t[8])
+        + ([['undo2']] if t[3] and t[5] else [['undo', t[5]]]) + ([['undo', 0]] if t[6] else [])
+        + [['pack', t[7]], ['observe', True], ['read', t[1]]] + t[8])
     return st.fixed_dictionaries({'kind': st.sampled_from(['fs', 'fs', 'bmap']),
                                   'ops': st.one_of(free, free.map(list), free.map(tuple).map(list), phased, phased2)})
 
@@ -333,6 +335,8 @@ class BlobWorld:
             self.check_writer('after rollback')
         elif k == 'undo':
             self.undo(op[1])
+        elif k == 'undo2':
+            self.undo(0, both=True)
         elif k == 'pack':
             self.pack(op[1])
         elif k == 'foreign':
@@ -494,7 +498,9 @@ class BlobWorld:
 
     undone_creation = False
 
-    def undo(self, j):
+    def undo(self, j, both=False):
+        """both: the two most recent transactions are undone in ONE transaction (two records of a blob they
+        both wrote end up in it)"""
         from ZODB.POSException import UndoError
         if self.kind == 'bmap':
             return
@@ -510,10 +516,21 @@ class BlobWorld:
         target = base64.decodebytes(e['id'] + b'\n')
         if target == self.txns[0][0]:
             return
+        targets = [target]
+        if both:
+            if len(log) < 3:
+                return
+            targets = [base64.decodebytes(x['id'] + b'\n') for x in log[:2]]
+            if self.txns[0][0] in targets:
+                return
         before = dict(self.committed)
         # expected content: what each blob held just before the undone transaction
         try:
-            self.db.undo(e['id'], self.tm.get())
+            if both:
+                self.db.undoMultiple([x['id'] for x in log[:2]], self.tm.get())
+                self.labels.add('undo-two-in-one-transaction')
+            else:
+                self.db.undo(e['id'], self.tm.get())
             self.tm.commit()
         except UndoError:
             self.tm.abort()
@@ -528,31 +545,29 @@ class BlobWorld:
         self.interesting = True
         # the undo model for blobs: every blob written by the target goes back to the bytes it had
         # before the target (or disappears if the target created it)
-        for name, oid in list(self.oids.items()):
-            if (oid, target) in self.rev_bytes:
+        for target in targets:          # (newest first)
+            for oid in sorted({o for (o, t) in self.rev_bytes if t == target}):
                 earlier = sorted(t for (o, t) in self.rev_bytes if o == oid and t < target)
-                if earlier:
-                    b = self.rev_bytes[(oid, earlier[-1])]
-                    self.committed[name] = b
-                    self.rev_bytes[(oid, tid)] = b
-                else:
-                    self.committed.pop(name, None)
+                # (None: the object does not exist before the target - the undo un-creates it)
+                self.rev_bytes[(oid, tid)] = self.rev_bytes[(oid, earlier[-1])] if earlier else None
+                if not earlier:
                     self.undone_creation = True
-        # objects restored by undoing an undo of their creation
-        root_names = None
+        # which object each name refers to is read from the root (a plain persistent mapping: C06's subject);
+        # the bytes of each object come from the model of its revisions
         self.tm.begin()
         root = self.conn.root()
+        self.committed = {}
         for name in ('b0', 'b1', 'b2'):
-            present = root.get(name) is not None
-            if present and name not in self.committed:
-                oid = root[name]._p_oid
-                revs = sorted(t for (o, t) in self.rev_bytes if o == oid and t < tid)
-                if revs:
-                    self.committed[name] = self.rev_bytes[(oid, revs[-1])]
-                    self.rev_bytes[(oid, tid)] = self.committed[name]
-                    self.oids[name] = oid
-            elif not present and name in self.committed:
-                self.committed.pop(name)
+            b = root.get(name)
+            if b is None:
+                continue
+            oid = b._p_oid
+            revs = sorted(t for (o, t) in self.rev_bytes if o == oid and t <= tid)
+            if not revs or self.rev_bytes[(oid, revs[-1])] is None:
+                self.fail('undo', 'blob-of-uncreated-object', 'after undo the root refers to %s = oid %r, which the undo un-created' % (name, oid))
+                return
+            self.committed[name] = self.rev_bytes[(oid, revs[-1])]
+            self.oids[name] = oid
         self.node = self.conn.root()['n'].v
         self.after_boundary('after undo')
 
